@@ -73,7 +73,7 @@ def check(prog, rep, tier):
     seen = {}
     nchk = 0
     for (ev, state), rows in sorted(tab.rows.items()):
-        if ev in ('MSTART', 'TCP_UP2'):
+        if ev in ('MSTART', 'MSTART_HOLD', 'TCP_UP2'):
             continue
         if ev == 'T_delay_open' and facts['dot_dead']:
             continue
@@ -142,6 +142,26 @@ def check(prog, rep, tier):
                     found='; '.join(probs) or 'no row', key=key)
         else:
             rep.ok('R13.d', key, file='yabgp/core/factory.py', found='%d path(s)' % len(rows))
+    # the deferred start (idle_hold=True): nothing is dialled yet, the idle-hold timer runs and automatic start is
+    # allowed again - otherwise the expiry of that timer is ignored and the peer never comes back
+    rows = tab.get('MSTART_HOLD', 'Idle')
+    probs = []
+    for r in rows:
+        a = r.field('fsm', 'allow_automatic_start')
+        if not (isinstance(a, Const) and a.value is True):
+            probs.append('allow_automatic_start = %s after manual_start(idle_hold=True): the idle-hold expiry is '
+                         'ignored' % cval(a))
+        if r.timer_final('idle_hold') != 'armed':
+            probs.append('the idle-hold timer is not running')
+        if r.connects() or r.final != 'Idle':
+            probs.append('connects at once / leaves Idle (final %s)' % r.final)
+        if probs:
+            break
+    if probs or not rows:
+        rep.bad('R13.d', 'MSTART_HOLD@Idle', file='yabgp/core/fsm.py', func='FSM.manual_start',
+                found='; '.join(probs) or 'no row', key='MSTART_HOLD@Idle')
+    else:
+        rep.ok('R13.d', 'MSTART_HOLD@Idle', file='yabgp/core/fsm.py', found='%d path(s)' % len(rows))
     # REST view -> factory.manual_start() with no idle_hold
     f = prog.func('yabgp.api.utils.manual_start')
     calls = [n for n in ast.walk(f.node) if isinstance(n, ast.Call) and isinstance(n.func, ast.Attribute)
